@@ -239,7 +239,7 @@ def extension(tier):
         if fam == "2":
             bases = spaces.v2_base_all()
         elif fam == "4.0":
-            bases = spaces.parts(T.V4_BASE, T.V4)[::37 if tier != "thorough" else 5]
+            bases = spaces.thin(spaces.parts(T.V4_BASE, T.V4), 37 if tier != "thorough" else 5)
         else:
             bases = spaces.v3_base_all()
         shapes = SHAPES["3" if fam.startswith("3") else fam]
